@@ -166,7 +166,9 @@ def apply (h : Hub) : Op → Hub × Obs
   | .pub topic payload => (publish h topic payload, .published (mustOf h topic))
   | .len => (h, .len h.entries.length)
   | .recv c =>
-    if (h.chans c).closed then (h, .rxGone)
+    -- a closed channel whose backlog is not drained yet (`Op.shut`) still hands its queued messages out, oldest
+    -- first (tokio: `close()` loses no message); a dropped receiver has no backlog (`closeChan` empties the queue)
+    if (h.chans c).closed && (h.chans c).queue.isEmpty then (h, .rxGone)
     else ({ h with chans := upd h.chans c (recvChan (h.chans c)).1 }, .msg (recvChan (h.chans c)).2)
   | .close c =>
     if (h.chans c).closed then (h, .rxGone)
@@ -265,7 +267,7 @@ def step (s : Sys) (t : Nat) : Option Sys :=
     | .len :: _ =>
       if s.lock.isSome then none else some ((s.setPc t .lenLocked).setLock (some t))
     | .recv c :: _ =>
-      if (s.hub.chans c).closed then some (s.finish t .rxGone)
+      if (s.hub.chans c).closed && (s.hub.chans c).queue.isEmpty then some (s.finish t .rxGone)
       else some ((s.finish t (.msg (recvChan (s.hub.chans c)).2)).setHub
         { s.hub with chans := upd s.hub.chans c (recvChan (s.hub.chans c)).1 })
     | .close c :: _ =>
